@@ -155,6 +155,47 @@ def rule_count_once(check):
     check.floor(R, "paths through a hook-emitting transform", n_t, 4)
 
 
+def rule_single_visit(check):
+    """SINGLE-VISIT: nothing but the visitor's own dispatch (and the block driver) runs the operation
+    visitor over a tree: a transform that visits (part of) its node again instruments and counts the
+    operations in it a second time"""
+    R = "SINGLE-VISIT"
+    check.rule(R, "the operation visitor is run over sub-trees only by its own visit methods and by the block driver; the one reviewed exception is the `AssignTarget::Pat` arm of to_dd_assign_expr, which `+=` can never reach (a destructuring target only exists for `=`). A transform that re-visits the node it was handed - visit_mut_expr has already visited its children - emits hooks for hooks and counts the same operation twice")
+    prog = check.prog
+    opv_ty = "OperationTransformVisitor"
+    n = 0
+    for f in prog.user_fns:
+        st = (f.rec.get("self_ty") or "").split("<")[0]
+        own = st.endswith(opv_ty) or st.endswith("BlockTransformVisitor")
+        for x in f.nodes():
+            if x.get("k") != "MethodCall" or x["method"] not in ("visit_mut_with", "visit_mut_children_with") or not x["args"]:
+                continue
+            if opv_ty not in (hir.peel(x["args"][0]).get("ty") or ""):
+                continue
+            n += 1
+            if own:
+                continue
+            conds = [c for c in f.conds_at(x) if c["t"] not in ("closure",)]
+            only_pat = len(conds) == 1 and conds[0]["t"] == "pat" and conds[0]["v"] and str(hir.pat_variant(conds[0]["pat"])).endswith("AssignTarget::Pat")
+            if not only_pat:
+                # the same thing said otherwise (`let AssignTarget::Simple(..) = .. else`, a negated arm):
+                # equivalent to "is AssignTarget::Pat" given the variants of AssignTarget
+                from .. import boolform as BF
+
+                try:
+                    vs = [v["name"] for v in prog.adt("swc_ecma_ast::AssignTarget")["variants"]]
+                except AnchorMissing:
+                    vs = []
+                if vs:
+                    fs = BF.from_conds(f, conds, lambda fn_, e_: None, prog)
+                    pre = "is:swc_ecma_ast::AssignTarget::"
+                    goal = BF.atom(pre + "Pat")
+                    exh = {pre: vs}
+                    only_pat = bool(fs) and BF.entails(fs, goal, exhaustive=exh) and all(BF.entails([goal], x, exhaustive=exh) for x in fs)
+            check.expect(only_pat, R, "%s/%s" % (R, f.name), hir.loc(x), "%s re-visits only under AssignTarget::Pat (unreachable for +=)" % f.name, "%s runs the operation visitor over its node again (under: %s): the children were already visited by visit_mut_expr, so their operations are instrumented and counted twice" % (f.name, "; ".join(hir.cond_str(c) for c in conds) or "no condition"))
+    check.floor(R, "sites that run the operation visitor", n, 5)
+
+
 def rule_tags(check):
     R = "TAGS"
     check.rule(R, "the telemetry tag is '+', '+=', 'Tpl' or the source name (.sym) of the called method - never the replacement name")
@@ -458,6 +499,7 @@ def run(check):
     from .. import xformrules as X
 
     check.guarded("FANOUT", X.rule_fanout)
+    check.guarded("SINGLE-VISIT", rule_single_visit)
     check.guarded("TELEMETRY-SIBLING", rule_siblings)
     check.guarded("METRICS-SHAPE", rule_shape)
     check.guarded("SNAPSHOT-ORDER", S.rule_snapshot_order)
